@@ -1136,3 +1136,74 @@ Proof.
     rewrite (flat_ok_unknown _ _ _ _ N) in A. discriminate. }
   now rewrite F.
 Qed.
+
+(* ---------- witnesses for the statements that are false of the code ---------- *)
+Definition W_TREE : dc :=
+  Dc "Cfg" [("seed", 0%Z)]
+     (SUn "model" (Some "small")
+          (ACons "small" SType (Dc "Sgd" [("lr", 1%Z); ("momentum", 2%Z)] SNil)
+          (ACons "adamish" (SInst [("lrd", 11%Z); ("beta", 22%Z)]) (Dc "Adam" [("lrd", 10%Z); ("beta", 20%Z)] SNil) ANil))
+          SNil).
+Definition W_TB : optab :=
+  [("--seed", ["c"; "seed"]); ("--model", ["c"; "model"]); ("--lr", ["c"; "model"; "lr"]);
+   ("--momentum", ["c"; "model"; "momentum"]); ("--lrd", ["c"; "model"; "lrd"]); ("--beta", ["c"; "model"; "beta"])].
+
+Definition W_CRASH : dc :=
+  Dc "T" []
+     (SUn "m" (Some "ia")
+          (ACons "ia" (SInst [("x", 7%Z)])
+                 (Dc "A" [("x", 1%Z)] (SUn "inner" (Some "i1") (ACons "i1" SType (Dc "L" [("y", 2%Z)] SNil) ANil) SNil))
+                 ANil)
+          SNil).
+
+Definition or_dc (x : res dc) : dc := match x with Ok r => r | Err _ => Dc "" [] SNil end.
+Definition or_out (x : res (val * list (path * string))) : val * list (path * string) :=
+  match x with Ok o => o | Err _ => (V "" [] VNil, []) end.
+
+(* `--mod adamish`: skipped by the rounds, read as --model by the main parser *)
+Definition W_NS_ARGV : list tok := [("--mod", "adamish")].
+Definition W_NS_R : dc := Eval vm_compute in or_dc (resolve_gen 1 W_TB W_NS_ARGV ["c"] W_TREE).
+Definition W_NS_OUT : val * list (path * string) := Eval vm_compute in or_out (final_gen W_TB W_NS_ARGV ["c"] W_NS_R).
+
+Lemma namespace_refuted :
+  exists tb argv root d fuel r v rep,
+    declared_dc d = true /\ wf_dc d = true /\ str_nodupb (map fst tb) = true /\ depth_dc d <= fuel /\
+    resolve_gen fuel tb argv root d = Ok r /\ final_gen tb argv root r = Ok (v, rep) /\
+    rep <> chosen_of (sg_info_dc root r).
+Proof.
+  exists W_TB, W_NS_ARGV, ["c"], W_TREE, 1, W_NS_R, (fst W_NS_OUT), (snd W_NS_OUT).
+  split; [vm_compute; reflexivity|]. split; [vm_compute; reflexivity|]. split; [vm_compute; reflexivity|].
+  split; [vm_compute; lia|]. split; [vm_compute; reflexivity|]. split; [vm_compute; reflexivity|].
+  vm_compute. discriminate.
+Qed.
+
+Lemma crash_refuted :
+  exists tb argv root d fuel,
+    declared_dc d = true /\ wf_dc d = true /\ str_nodupb (map fst tb) = true /\ depth_dc d <= fuel /\
+    no_abbrev tb argv root d fuel = true /\
+    parse_gen fuel tb argv root d = Err (Raise "AssertionError") /\
+    expect_allows (spec d root (intents_of tb argv)) (parse_gen fuel tb argv root d) = false.
+Proof.
+  exists [("--m", ["c"; "m"]); ("--inner", ["c"; "m"; "inner"])], [], ["c"], W_CRASH, 2.
+  split; [vm_compute; reflexivity|]. split; [vm_compute; reflexivity|]. split; [vm_compute; reflexivity|].
+  split; [vm_compute; lia|]. split; [vm_compute; reflexivity|]. split; vm_compute; reflexivity.
+Qed.
+
+(* `--lr 5` while only Adam's `--lrd` is registered *)
+Definition W_FX_ARGV : list tok := [("--model", "adamish"); ("--lr", "5")].
+Definition W_FX_R : dc := Eval vm_compute in or_dc (resolve_gen 1 W_TB W_FX_ARGV ["c"] W_TREE).
+Definition W_FX_OUT : val * list (path * string) := Eval vm_compute in or_out (final_gen W_TB W_FX_ARGV ["c"] W_FX_R).
+
+Lemma foreign_exact_refuted :
+  exists tb argv root d fuel r o v q x,
+    declared_dc d = true /\ wf_dc d = true /\ str_nodupb (map fst tb) = true /\ depth_dc d <= fuel /\
+    resolve_gen fuel tb argv root d = Ok r /\ In (o, v) argv /\ exact tb o = Some q /\ ~ In q (registered root r) /\
+    final_gen tb argv root r = Ok x.
+Proof.
+  exists W_TB, W_FX_ARGV, ["c"], W_TREE, 1, W_FX_R, "--lr", "5", ["c"; "model"; "lr"], W_FX_OUT.
+  split; [vm_compute; reflexivity|]. split; [vm_compute; reflexivity|]. split; [vm_compute; reflexivity|].
+  split; [vm_compute; lia|]. split; [vm_compute; reflexivity|].
+  split; [right; now left|]. split; [vm_compute; reflexivity|].
+  split; [|vm_compute; reflexivity].
+  vm_compute. intros H. repeat (destruct H as [H|H]; [discriminate|]). exact H.
+Qed.
